@@ -963,7 +963,7 @@ func (m *a8Model) fieldBounded(f *types.Var, side int) bool {
 	return false
 }
 
-const textA8 = "A8 (client-controlled integers): a number that comes from a command argument or is parsed from client/stored text reaches an allocation size (make length/capacity/map hint), a slice bound or index, or a shift count only where dominating comparisons (on every path; through clamps, parameters — at every call site —, fields and pointer-to-int arguments) bound it above by an untainted quantity and below by zero: otherwise one command can crash the process (makeslice/index panic) or exhaust its memory"
+const textA8 = "A8 (client-controlled integers): a number that comes from a command argument or is parsed from client/stored text reaches an allocation size (make length/capacity/map hint), a slice bound or index, or a shift count only where dominating comparisons (on every path; through clamps, parameters — at every call site —, fields and pointer-to-int arguments) bound it above by an untainted quantity and below by zero: otherwise one command can crash the process (makeslice/index panic) or exhaust its memory; and it is incremented by a positive constant (`stop++`) only where it is bounded above — the largest integer wraps round to the smallest and the loop it limits never ends"
 
 func ruleA8(c *Ctx) {
 	c.S.Rule("A8-bounds", textA8, 10)
@@ -1011,6 +1011,15 @@ func ruleA8(c *Ctx) {
 				if (x.Op == token.SHL || x.Op == token.SHR) && m.tainted[x.Y] {
 					sinks = append(sinks, sink{in, x.Y, "shift count", sideUpper | sideLower})
 				}
+				// v + c (c > 0) wraps round to the smallest integer when v is the largest: `stop++` behind a clamp that was
+				// removed makes `for stop < count` run for ever. (The mirror image, v - c, is not a sink: the code counts
+				// down in loops whose guard is on another variable, which this analysis does not relate.)
+				if x.Op == token.ADD && m.tainted[x.X] {
+					if k, isC := constInt(x.Y); isC && k > 0 {
+						sinks = append(sinks, sink{in, x.X, "increment", sideUpper})
+					}
+				}
+
 			}
 		}
 	}
